@@ -70,6 +70,9 @@ def _registry():
         metric="rbf", metric_dict={"gamma": "mean"}, prior=0.5, m_max=3, budget=budget, random_state=seed)
     reg["StreamProbabilisticAL{rbf,gamma=0.5}"] = lambda seed, budget: st.StreamProbabilisticAL(
         metric="rbf", metric_dict={"gamma": 0.5}, budget=budget, random_state=seed)
+    # a caller-supplied dictionary that leaves the bandwidth open (the dictionary stays the caller's: nothing may be written into it)
+    reg["StreamProbabilisticAL{rbf,metric_dict={}}"] = lambda seed, budget: st.StreamProbabilisticAL(
+        metric="rbf", metric_dict={}, budget=budget, random_state=seed)
     reg["StreamDensityBasedAL{window=3,dist_func_dict}"] = lambda seed, budget: st.StreamDensityBasedAL(
         window_size=3, dist_func_dict={"metric": "manhattan"}, budget=budget, random_state=seed)
     reg["CognitiveDualQueryStrategyVarUn{full_budget,threshold=0,window=2}"] = lambda seed, budget: st.CognitiveDualQueryStrategyVarUn(
